@@ -236,6 +236,8 @@ def run(prog, chk):
     prolog_token_start(chk, "C16.g", pa)
     look_behind(prog, chk, "C16.i", ("Xml.cpp",))
     references_after_escaping(prog, chk, "C16.j")
+    from .. import balance
+    balance.check(prog, chk, "C16.k", [f for f in prog.functions.values() if f.file.endswith("Xml.cpp") and (f.cls or "").startswith("Xml::Private")], "Xml::Private")
     chk.rule("C16.h", "MPT: every cursor / line field the tokenizer advances is set again in Private::parse before the first tokenizer call (a Parser is reused across documents)", floor=2)
     from .server_common import parser_entry_resets
     parser_entry_resets(prog, chk, "C16.h", "Xml::Private", "Xml.cpp")
